@@ -29,30 +29,37 @@ pub fn run(run: &RunInfo) -> Summary {
     let nops = all_ops.len();
     // (max, first operation, noisy): the noisy pass explores one deviation of the reply shape per
     // history (no / two intermediate statuses, a print line, an extra status information) at depth - 1
-    let mut work: Vec<(usize, usize, bool)> = vec![];
+    let mut work: Vec<(usize, usize, bool, bool)> = vec![];
     for max in 0..=3usize {
         for first in 0..nops {
-            work.push((max, first, false));
+            work.push((max, first, false, false));
             if max >= 1 {
-                work.push((max, first, true));
+                work.push((max, first, true, false));
             }
         }
     }
+    // tokens that are related to each other (prefix "AC" as used for the reference, case, trailing
+    // blank): distinct tokens must stay distinct keys at every entry point
+    let rel_ops = ops(&["ACX", "X", "x", "X "]);
+    for first in 0..rel_ops.len() {
+        work.push((2, first, false, true));
+    }
     let mut acc = par_for(work.len(), |ix, acc| {
-        let (max, first, noisy) = work[ix];
-        if skip_for_replay(run, &format!("c07/max={max}/first={first}/noisy={noisy}/")) {
+        let (max, first, noisy, related) = work[ix];
+        if skip_for_replay(run, &format!("c07/max={max}/first={first}/noisy={noisy}/related={related}/")) {
             return;
         }
         let p = HistParams {
             max,
-            depth: if noisy { depth - 1 } else { depth },
-            ops: all_ops.clone(),
+            depth: if noisy || related { depth - 1 } else { depth },
+            ops: if related { rel_ops.clone() } else { all_ops.clone() },
             dangling: None,
             reservation_menu: vec![Outcome::Ok, Outcome::Abort(0x6c), Outcome::Abort(0xfc), Outcome::NoStatus, Outcome::OkExtraStatus],
             commit_menu: vec![Outcome::Ok, Outcome::Abort(0x6c)],
             cancel_menu: vec![Outcome::Ok, Outcome::Abort(0xb4)],
             eod_menu: vec![Eod::Completion],
             noise: noisy,
+            delay_ms: 0,
         };
         let st = dbx::explore(if noisy { 1 } else { 0 }, 200_000_000, |ctx| {
             let o = history(ctx, &p, Some(first), acc);
@@ -61,7 +68,7 @@ pub fn run(run: &RunInfo) -> Summary {
             if !problems.is_empty() {
                 let choices = ctx.choices();
                 acc.violation(viol(
-                    format!("c07/max={max}/first={first}/noisy={noisy}/choices={choices:?}"),
+                    format!("c07/max={max}/first={first}/noisy={noisy}/related={related}/choices={choices:?}"),
                     format!("transactions_max_num = {max}\nhistory:\n  {}\nviolations:\n  {}", trace.join("\n  "), problems.join("\n  ")),
                     trace.len() as u64,
                 ));
@@ -85,6 +92,7 @@ pub fn run(run: &RunInfo) -> Summary {
                 cancel_menu: vec![Outcome::Ok, Outcome::Abort(0xb4)],
                 eod_menu: vec![Eod::Completion],
                 noise: false,
+                delay_ms: 0,
             };
             let (levels, states, transitions, fix) = bfs(&p, 12, &format!("c07/max={max}"), |o| &o.c07, &mut acc);
             acc.count("bfs_states", states as u64);
@@ -115,7 +123,7 @@ pub fn run(run: &RunInfo) -> Summary {
         transitions: acc.get("transitions"),
         traces_validated: execs,
         distinct_nontrivial: acc.set_len("states"),
-        rule: format!("real Feig client against the simulated terminal (paused clock): transactions_max_num 0..=3 x all call histories of depth {depth} over {{begin, commit(0), commit(pre), cancel}} x tokens {{A,B,C}} + read_card, the terminal's outcome of every request that really arrives chosen among {{success with the smallest free receipt number, the same followed by a further status information without receipt number, abort 6C, abort FC, completion without receipt}} (reservation) / {{completion, abort}} (commit, cancel). A second pass at depth - 1 additionally explores every single deviation of the terminal's reply shape (no / two intermediate statuses, a print line or an extra status information ahead of the final packet of any exchange). Finally a state-deduplicated breadth-first search (state = client map, connection flag, terminal ledger) executes every operation with every outcome from every reachable state until no new state appears (at most 12 levels). Every step is compared with the reference model (result class, refused calls cause no traffic, exact request incl. receipt number, clean-up when the map empties, client snapshot == model map). states = distinct (max, client map, terminal ledger)"),
+        rule: format!("real Feig client against the simulated terminal (paused clock): transactions_max_num 0..=3 x all call histories of depth {depth} over {{begin, commit(0), commit(pre), cancel}} x tokens {{A,B,C}} + read_card, the terminal's outcome of every request that really arrives chosen among {{success with the smallest free receipt number, the same followed by a further status information without receipt number, abort 6C, abort FC, completion without receipt}} (reservation) / {{completion, abort}} (commit, cancel). A further pass at depth - 1 uses four related tokens (ACX, X, x, 'X ') with max 2. A second pass at depth - 1 additionally explores every single deviation of the terminal's reply shape (no / two intermediate statuses, a print line or an extra status information ahead of the final packet of any exchange). Finally a state-deduplicated breadth-first search (state = client map, connection flag, terminal ledger) executes every operation with every outcome from every reachable state until no new state appears (at most 12 levels). Every step is compared with the reference model (result class, refused calls cause no traffic, exact request incl. receipt number, clean-up when the map empties, client snapshot == model map). states = distinct (max, client map, terminal ledger)"),
         exhaustive: true,
         required_witnesses: vec![
             "the state-deduplicated search reached its fixed point".into(),
